@@ -243,7 +243,10 @@ theorem gone_txInsert {s : State} {tx : Nat} (h : Gone s tx) (a t : Nat) (vals :
     · exact h
     · split
       · exact h
-      · exact gone_recordUndo (gone_setTable h _ _) _ _
+      · dsimp only
+        split
+        · exact gone_recordUndo (gone_setTable h _ _) _ _
+        · exact gone_recordUndo (gone_setTable (s := lockAll s _ _ _) h _ _) _ _
 
 theorem gone_updateRow {s : State} {tx : Nat} (h : Gone s tx) (a t : Nat) (upd : List (Nat × Int)) (i : Nat) :
     Gone (updateRow a t upd s i) tx := by
@@ -470,10 +473,17 @@ theorem lockIdx_rollback {s : State} (h : LockIdx s) (a : Nat) : LockIdx (rollba
 
 theorem lockIdx_txInsert {s : State} (h : LockIdx s) (a t : Nat) (v : List Int) : LockIdx (txInsert s a t v).1 := by
   unfold txInsert
-  repeat' split
-  all_goals first
-    | exact h
-    | exact lockIdx_congr (by simp) (by simp) h
+  split
+  · exact h
+  · split
+    · exact h
+    · split
+      · exact h
+      · dsimp only
+        split
+        · exact lockIdx_congr (by simp) (by simp) h
+        · rename_i T _ _ _
+          exact lockIdx_congr (s := lockAll s a t [T.rows.length]) (by simp) (by simp) (lockIdx_lockAll h _ _ _)
 
 theorem lockIdx_txUpdate {s : State} (h : LockIdx s) (a t : Nat) (c : Cond) (u : List (Nat × Int)) :
     LockIdx (txUpdate s a t c u).1 := by
